@@ -4,9 +4,16 @@
 //! random octet strings, performs the read battery on each (twice) and logs
 //! one `read` event per message with the observed projection.  Messages
 //! larger than the cap only get a `total` event (no panic, repeatable).
+//! After the batteries, PAIRS of messages (MsgPair.tla): a message from the
+//! run and a partner derived from it (cut off at any offset, one header
+//! field or body octet changed, the reply the library starts for it, whole
+//! or cut off, an error reply without question, octets appended) or another message of the run; one `pair`
+//! event per pair with the observed pair projection.
 //!   record_wire <trace.ndjson> <seed> <n_messages> [cap]
 #[path = "../wire.rs"]
 mod wire;
+#[path = "../wire_pair.rs"]
+mod wire_pair;
 
 use domain::base::iana::{Class, Rtype};
 use domain::base::message_builder::{MessageBuilder, TreeCompressor};
@@ -386,6 +393,73 @@ fn reaches_selfptr(m: &[u8], mut start: usize) -> bool {
     false
 }
 
+fn make_pair_case() -> CaseFn {
+    Box::new(|input, _dev| wire_pair::pair_projection_twice(&bytes_of(&input["a"]), &bytes_of(&input["b"])))
+}
+
+/// a partner for `a`: related to it in one of the ways two messages of an
+/// exchange are related, or damaged on the way
+fn partner(rng: &mut Rng, a: &[u8], pool: &[Vec<u8>], cap: usize) -> Vec<u8> {
+    use domain::base::iana::Rcode;
+    use domain::base::Message;
+    let cut = |rng: &mut Rng, m: &[u8]| -> Vec<u8> {
+        // mostly inside or right behind the question section
+        let hi = if rng.chance(2, 3) { m.len().min(12 + 24) } else { m.len() };
+        let k = if hi <= 12 { rng.below(hi as u64 + 1) as usize } else { 12 + rng.below((hi - 12) as u64 + 1) as usize };
+        m[..k.min(m.len())].to_vec()
+    };
+    let mut b = a.to_vec();
+    match rng.below(12) {
+        0 | 1 | 2 => b = cut(rng, a),
+        3 if b.len() >= 12 => match rng.below(6) {
+            0 => b[2] ^= 0x80,
+            1 => b[1] = b[1].wrapping_add(1),
+            2 => b[5] = b[5].wrapping_add(*rng.pick(&[1u8, 255])),
+            3 => b[3] ^= *rng.pick(&[1u8, 2, 3]),
+            4 => b[2] ^= 0x08,
+            _ => b[7] = b[7].wrapping_add(1),
+        },
+        4 if b.len() > 13 => {
+            // letter case / one octet of the question region
+            let i = 12 + rng.below((b.len() - 12).min(24) as u64) as usize;
+            b[i] = if b[i].is_ascii_alphabetic() { b[i] ^ 0x20 } else { b[i].wrapping_add(1) };
+        }
+        5 | 6 if b.len() >= 12 => {
+            // the reply the library itself starts for a, with QR as the
+            // library sets it, whole or cut off
+            if let Ok(src) = Message::from_octets(a) {
+                let r = domain::base::MessageBuilder::new_vec().start_error(&src, Rcode::NOERROR).finish();
+                b = if rng.chance(1, 2) { r } else { cut(rng, &r) };
+            }
+        }
+        7 => b = pool[rng.below(pool.len() as u64) as usize].clone(),
+        8 => {
+            let n = 1 + rng.below(6) as usize;
+            b.extend(rng.bytes(n));
+        }
+        9 | 10 if b.len() >= 12 => {
+            // an error reply without question: header only, or announcing
+            // a record in one section (then it is not "header only")
+            b.truncate(12);
+            b[2] |= 0x80;
+            b[3] = (b[3] & 0xF0) | (1 + rng.below(5) as u8);
+            for i in 4..12 {
+                b[i] = 0;
+            }
+            match rng.below(5) {
+                0 => b[7] = 1,
+                1 => b[9] = 1,
+                2 => b[11] = 1,
+                3 => b[3] &= 0xF0,
+                _ => {}
+            }
+        }
+        _ => {}
+    }
+    b.truncate(cap);
+    b
+}
+
 fn main() {
     quiet_panics();
     let args: Vec<String> = std::env::args().collect();
@@ -465,7 +539,11 @@ fn main() {
     // never returns is recorded as {"hang": true}
     let mut wd = Watchdog::new(make_proj_case, 12);
     let mut probe_hangs = 0u64;
+    let mut pool: Vec<Vec<u8>> = vec![];
     for (idx, m) in forced.into_iter().enumerate() {
+        if m.len() <= cap && (m.len() >= 12 || idx % 7 == 0) {
+            pool.push(m.clone());
+        }
         if m.len() > cap && idx >= nforced {
             let input = json!({"m": json_bytes(&m), "starts": []});
             let a = wd.call(&input, &json!({}));
@@ -499,8 +577,19 @@ fn main() {
         probe_hangs = SLICE_HANGS.load(std::sync::atomic::Ordering::Relaxed);
         tw.event(json!({"ev": "read", "m": json_bytes(&m), "starts": starts, "proj": proj}));
     }
+    // pairs
+    let mut wdp = Watchdog::new(make_pair_case, 12);
+    let npairs = if pool.is_empty() { 0 } else { (n * 3 / 5).max(60) };
+    for i in 0..npairs {
+        let a = pool[rng.below(pool.len() as u64) as usize].clone();
+        let b = partner(&mut rng, &a, &pool, cap);
+        // the derived message is the response as often as the request
+        let (a, b) = if i % 2 == 0 { (a, b) } else { (b, a) };
+        let obs = wire_pair::lift_anomalies(wdp.call(&json!({"a": json_bytes(&a), "b": json_bytes(&b)}), &json!({})));
+        tw.event(json!({"ev": "pair", "a": json_bytes(&a), "b": json_bytes(&b), "proj": obs}));
+    }
     let slw_hangs = probe_hangs;
     let n = tw.finish();
-    println!("RECORDED {} hangs {} battery_hangs {}", n, slw_hangs, wd.hangs);
+    println!("RECORDED {} hangs {} battery_hangs {} pairs {}", n, slw_hangs, wd.hangs + wdp.hangs, npairs);
     std::process::exit(0);
 }
